@@ -822,6 +822,12 @@ class Sym:
         return ("truthy", self.canon(e, at, depth + 1), not neg)
 
     def _rel(self, l, op, r, at, depth, neg):
+        if isinstance(op, (ast.In, ast.NotIn)) and isinstance(r, (ast.Tuple, ast.List, ast.Set)) and 1 <= len(r.elts) <= 6 and all(isinstance(x, ast.Constant) and isinstance(x.value, (str, int)) and not isinstance(x.value, bool) for x in r.elts):
+            # membership in a short literal collection of strings / integers is the disjunction of the equalities
+            eqs = ast.BoolOp(op=ast.Or(), values=[ast.Compare(left=l, ops=[ast.Eq()], comparators=[x]) for x in r.elts]) if len(r.elts) > 1 else ast.Compare(left=l, ops=[ast.Eq()], comparators=[r.elts[0]])
+            for n_ in ast.walk(eqs):
+                ast.copy_location(n_, l)
+            return self.cmp(eqs, at, depth + 1, neg != isinstance(op, ast.NotIn))
         if isinstance(op, (ast.In, ast.NotIn)):
             pos = isinstance(op, ast.In)
             return ("in", self.canon(l, at, depth + 1), self.canon(r, at, depth + 1), pos != neg)
